@@ -7,6 +7,7 @@ def check(rep, tier):
     rep.run(core_make.run, rep, tier)
     rep.run(core_rules.run, rep, tier, parts=("defvjp",))
     rep.run(rules_shape.run, rep, tier)
+    rep.run(rules_shape.run_struct, rep, tier)
     rep.run(rules_exact.run, rep, tier, rules_exact.CLAUSE_PROPS["C05"])
     rep.run(containers.run_ground, rep, tier)
     rep.run(containers.run_exact, rep, tier, clauses=('K-structure',))
